@@ -188,6 +188,27 @@ func TestC22(t *testing.T) {
 		}
 		ref2, rerr2 := refsn.Decode(out)
 		if rerr2 != nil || !snmap.Equal(ref2, ref) {
+			// The property exempts the length field: a packet decoded from a datagram with a misleading announced
+			// length may be re-encoded with that length.  Judge type and body only: read them from the re-encoding
+			// at both possible header sizes and put a correct length field in front.
+			for _, hdr := range []int{2, 4} {
+				if len(out) < hdr {
+					continue
+				}
+				tb := out[hdr-1:]
+				var canon []byte
+				if n := len(tb) + 1; n <= 255 {
+					canon = append([]byte{byte(n)}, tb...)
+				} else {
+					canon = append([]byte{1, byte((n + 2) >> 8), byte(n + 2)}, tb...)
+				}
+				if r3, e3 := refsn.Decode(canon); e3 == nil && snmap.Equal(r3, ref) {
+					ref2, rerr2 = r3, nil
+					break
+				}
+			}
+		}
+		if rerr2 != nil || !snmap.Equal(ref2, ref) {
 			a.add(explore.Violation{Property: "C22", Sig: "repack-differs:" + got.Name() + ":" + form, Detail: fmt.Sprintf("%s re-encoded as %s (%v vs %v, %v)", hexs(in), hexs(out), snmap.Norm(ref), snmap.Norm(ref2), rerr2), History: []string{hexs(in)}})
 		}
 	})
